@@ -335,6 +335,14 @@ func init() {
 			"rnbqkbnr/pppppppp/8/8/8/8/PPPPPPPP/RNBQKBNR w KQkq - 0 1",
 			"r4rk1/1pp1qppp/p1np1n2/2b1p1B1/2B1P1b1/P1NP1N2/1PP1QPPP/R4RK1 b - - 0 10",
 		}
+		if mode == "c11" {
+			// positions whose iterations 1, 2, 3 play different moves and whose iteration 3 finds (or, cut short, seems to find) a
+			// mate of exactly its depth: an acceptance test that treats mate scores specially shows here
+			fens = append([]string{"4kb1r/p2n1ppp/4q3/4p1B1/4P3/1Q6/PPP2PPP/2KR4 w k - 1 1", "r1b2k1r/ppp1bppp/8/1B1Q4/5q2/2P5/PPP2PPP/R3R1K1 w - - 1 1"}, fens...)
+			if npos > 4 {
+				fens = append(fens[:4:4], append(append([]string{}, mateFens[:6]...), fens[4:]...)...)
+			}
+		}
 		// roots without a legal move: the search answers `bestmove 0000` without ever polling the stop channel
 		terminal := []string{"7k/5Q2/6K1/8/8/8/8/8 b - - 0 1", "7k/6Q1/6K1/8/8/8/8/8 b - - 0 1"}
 		for len(fens) < npos {
@@ -730,5 +738,122 @@ func init() {
 		})
 		os.Stdout = realStdout
 		fmt.Fprintln(out, res)
+	}
+}
+
+func init() {
+	// verifh rego: a `go` accepted while the previous search thread is between its bestmove line and its exit (UCI allows the
+	// next go as soon as bestmove was seen); the new search must be stoppable and answer exactly once
+	commands["rego"] = func(args []string) {
+		summary := func(lines []string) string {
+			var keep []string
+			for _, l := range lines {
+				f := strings.Fields(l)
+				if strings.HasPrefix(l, "bestmove") {
+					keep = append(keep, l)
+				} else if strings.HasPrefix(l, "info depth") && len(f) >= 6 {
+					keep = append(keep, strings.Join(f[:6], " "))
+				}
+			}
+			return strings.Join(keep, " | ")
+		}
+		for _, second := range []string{"go infinite", "go depth 30", "go depth 5"} {
+			for _, first := range []string{"go depth 2", "go infinite"} {
+				engine.VerifResetSession()
+				oc := startCollect()
+				parked := make(chan struct{}, 1)
+				release := make(chan struct{})
+				var once, relOnce sync.Once
+				secondGoing := false
+				doRelease := func() { relOnce.Do(func() { close(release) }) }
+				engine.VerifSyncHook = func(point, a, b int) {
+					if point == engine.VsAfterBestmove {
+						hit := false
+						once.Do(func() { hit = true })
+						if hit {
+							parked <- struct{}{}
+							<-release
+						}
+					}
+					// the old thread runs its last statements while the new search is in the middle of its work
+					if secondGoing && point == engine.VsIterationDone && a == 2 {
+						doRelease()
+						time.Sleep(5 * time.Millisecond)
+					}
+				}
+				status := "ok"
+				engine.ParseInputLine("position startpos")
+				engine.ParseInputLine(first)
+				if first == "go infinite" {
+					time.Sleep(30 * time.Millisecond)
+					engine.ParseInputLine("stop")
+				}
+				select {
+				case <-parked:
+				case <-time.After(10 * time.Second):
+					status = "first search did not finish"
+				}
+				if status == "ok" {
+					waitFor(oc, "bestmove", 1, 5*time.Second)
+					engine.ParseInputLine("position startpos moves e2e4")
+					n0 := len(oc.snapshot())
+					secondGoing = true
+					if !timedCommand(second, 2*time.Second) {
+						status = "second go blocked"
+					}
+					time.Sleep(30 * time.Millisecond)
+					doRelease() // at the latest now
+					runningSeen := engine.VerifSearchRunning()
+					if second == "go depth 5" {
+						// not stopped: its analysis must be the one of a fresh session
+						if !waitFor(oc, "bestmove", 2, 20*time.Second) {
+							status = "the second search did not answer"
+						} else {
+							got := summary(oc.snapshot()[n0:])
+							time.Sleep(20 * time.Millisecond)
+							engine.VerifSyncHook = nil
+							engine.VerifResetSession()
+							engine.ParseInputLine("position startpos moves e2e4")
+							n1 := len(oc.snapshot())
+							engine.ParseInputLine("go depth 5")
+							waitFor(oc, "bestmove", 3, 20*time.Second)
+							time.Sleep(20 * time.Millisecond)
+							if ref := summary(oc.snapshot()[n1:]); ref != got {
+								status = "analysis of the second go differs from a fresh session: " + got + "  -- fresh: " + ref
+							}
+						}
+						oc.stop()
+						fmt.Fprintf(out, "%s\t%s\t%s\n", status, first, second)
+						continue
+					}
+					if !timedCommand("stop", 2*time.Second) {
+						status = "stop blocked"
+					}
+					if !waitFor(oc, "bestmove", 2, 6*time.Second) {
+						status = fmt.Sprintf("the second search did not answer within 6 s after stop (running flag seen by the command thread while it searched: %v, stop request pending: %d)", runningSeen, engine.VerifStopPending())
+						// rescue
+						for i := 0; i < 20 && oc.count("bestmove") < 2; i++ {
+							engine.ParseInputLine("stop")
+							time.Sleep(100 * time.Millisecond)
+						}
+						if oc.count("bestmove") < 2 {
+							// the search cannot be ended any more: report and leave (nothing else can run in this process)
+							oc.stop()
+							fmt.Fprintf(out, "%s\t%s\t%s\n", status, first, second)
+							out.Flush()
+							os.Exit(0)
+						}
+					} else if oc.count("bestmove") != 2 {
+						status = fmt.Sprintf("%d bestmove lines for two go commands", oc.count("bestmove"))
+					}
+				} else {
+					doRelease()
+				}
+				time.Sleep(20 * time.Millisecond)
+				engine.VerifSyncHook = nil
+				oc.stop()
+				fmt.Fprintf(out, "%s\t%s\t%s\n", status, first, second)
+			}
+		}
 	}
 }
